@@ -132,6 +132,7 @@ class MutualInfoClimateNetwork(ClimateNetwork):
                   "anomaly values using cython...")
 
         #  Normalize anomaly time series to zero mean and unit variance
+        anomaly = anomaly.copy()
         self.data.normalize_time_series_array(anomaly)
 
         #  Create local transposed copy of anomaly
